@@ -176,7 +176,7 @@ def native_run_harness(items, timeout=1800):
                        capture_output=True, text=True, env=native_env(), timeout=timeout, cwd=VERIF_ROOT)
     if p.returncode != 0:
         raise RuntimeError(f"native harness runner failed: {p.stderr[-2000:]}")
-    return json.loads(p.stdout)
+    return json.loads(p.stdout.rsplit("@@VF-RESULT@@", 1)[-1])
 
 
 def native_call(script, payload, timeout=600):
@@ -185,7 +185,7 @@ def native_call(script, payload, timeout=600):
                        text=True, env=native_env(), timeout=timeout, cwd=VERIF_ROOT)
     if p.returncode != 0:
         raise RuntimeError(f"native {script} failed (exit {p.returncode}): {p.stderr[-3000:]}")
-    return json.loads(p.stdout)
+    return json.loads(p.stdout.rsplit("@@VF-RESULT@@", 1)[-1])
 
 
 # ------------------------------------------------------------------------------------------------ known findings
